@@ -419,3 +419,256 @@ def E4b(b):
     mine = [[list(_storage(p, True).make_keys(i)) for i in sample] for p in ('kopf.zalando.org', 'my-op.example.com')]
     b.check('same_across_restarts', theirs == mine, lambda: dict(stderr=out.stderr[-500:], differing=[
         (i, a, c) for i, a, c in zip(sample, mine[0], (theirs or [[]])[0]) if a != c][:3]))
+
+
+# =========================================================================== E5
+def _no_nones(record):
+    return {k: v for k, v in record.items() if v is not None} if isinstance(record, dict) else record
+
+
+def _wire(patch):
+    """What a kopf Patch sends: a JSON merge-patch document."""
+    return json.loads(json.dumps(dict(patch)))
+
+
+def _records(rng, n):
+    ts = ('2020-01-01T00:00:00', '2021-12-31T23:59:59.999999')
+    msgs = (None, '', 'plain', 'ü∂ "quoted" \\ back\nnewline\ttab', 'x' * 1200, '{"json": "inside"}', "it's")
+    out = [dict(started=ts[0], stopped=None, delayed=None, purpose=None, retries=None, success=None, failure=None, message=None, subrefs=None),
+           dict(started=ts[0], stopped=ts[1], delayed=ts[1], purpose='create', retries=0, success=True, failure=False, message='', subrefs=[]),
+           dict(started=ts[1])]
+    while len(out) < n:
+        out.append(dict(started=rng.choice(ts), stopped=rng.choice((None,) + ts), delayed=rng.choice((None,) + ts),
+                        purpose=rng.choice((None, 'create', 'update', 'delete', 'resume')), retries=rng.choice((None, 0, 1, 99)),
+                        success=rng.choice((None, True, False)), failure=rng.choice((None, True, False)), message=rng.choice(msgs),
+                        subrefs=rng.choice((None, [], ['fn/a'], ['fn/a', 'fn/b/c']))))
+    return out
+
+
+E5_IDS = ('fn', 'fn/spec.x', 'outer/inner_sub', 'Class.method', 'x' * 63, 'x' * 64, 'y' * 70 + '/sub', 'z' * 300, 'fn_<locals>_inner')
+E5_COLLIDING = (('fn/spec.x', 'fn.spec.x'), ('a<b', 'a_b'), ('q' * 80 + '/t', 'q' * 80 + '.t'))     # equal after make_safe_key (F-C16-2)
+
+
+def _e5_bodies(other_progress):
+    """Bodies the storages work on: bare; with user annotations, labels, status; with another operator's records."""
+    from contracts.c04_essence import apply_merge_patch
+    from kopf._cogs.structs import bodies, patches
+    bare = {'apiVersion': 'example.com/v1', 'kind': 'KopfExample', 'metadata': {'name': 'obj', 'namespace': 'ns'}, 'spec': {'x': 1}}
+    user = apply_merge_patch(bare, {'metadata': {'labels': {'app': 'demo'}, 'annotations': {'example.com/note': 'x', 'note': 'y', 'empty': ''}},
+                                    'status': {'observed': 1, 'kopf': {'progress': {'someone-else': {'started': 'then'}}, 'dummy': 'then'}}})
+    p = patches.Patch()
+    other_progress.store(key='fn', record={'started': 'other-operator', 'retries': 7}, body=bodies.Body(user), patch=p)
+    other_progress.touch(body=bodies.Body(user), patch=p, value='other-touch')
+    shared = apply_merge_patch(user, _wire(p))
+    replicaset = apply_merge_patch(bare, {'kind': 'ReplicaSet', 'apiVersion': 'apps/v1', 'metadata': {
+        'ownerReferences': [{'apiVersion': 'apps/v1', 'kind': 'Deployment', 'name': 'd', 'uid': 'u', 'controller': True}]}})
+    return [('bare', bare), ('user-data', user), ('shared-with-other-operator', shared), ('replicaset-of-deployment', replicaset)]
+
+
+def _own_locations(storage_kind, storage, hid, body):
+    """Where the record of `hid` may live for this storage: annotation keys and/or the status path."""
+    from kopf._cogs.structs import bodies
+    keys, status = set(), False
+    parts = [storage] + list(getattr(storage, 'storages', []))
+    for s in parts:
+        if hasattr(s, 'make_keys'):
+            keys |= set(s.make_keys(hid, body=bodies.Body(body)))
+        elif type(s).__name__ == 'StatusProgressStorage':
+            status = True
+    return keys, status
+
+
+def _strip_own(body, keys, status, hid, markers):
+    """The body without the record of `hid` (and without the operators' branding markers)."""
+    b2 = copy.deepcopy(body)
+    ann = b2.get('metadata', {}).get('annotations')
+    if isinstance(ann, dict):
+        for k in list(ann):
+            if k in keys or k in markers:
+                del ann[k]
+        if not ann:
+            del b2['metadata']['annotations']
+    if status:
+        prog = ((b2.get('status') or {}).get('kopf') or {}).get('progress')
+        if isinstance(prog, dict):
+            prog.pop(hid, None)
+            if not prog:
+                del b2['status']['kopf']['progress']
+                if not b2['status']['kopf']:
+                    del b2['status']['kopf']
+                    if not b2['status']:
+                        del b2['status']
+    return b2
+
+
+@bounded('E5', targets=['kopf._cogs.configs.progress.AnnotationsProgressStorage', 'kopf._cogs.configs.progress.StatusProgressStorage',
+                        'kopf._cogs.configs.progress.SmartProgressStorage', 'kopf._cogs.configs.progress.MultiProgressStorage',
+                        'kopf._cogs.configs.diffbase.AnnotationsDiffBaseStorage', 'kopf._cogs.configs.diffbase.StatusDiffBaseStorage',
+                        'kopf._cogs.configs.diffbase.MultiDiffBaseStorage', 'kopf._cogs.configs.conventions.CollisionEvadingConvention.mark_key'],
+         props=['C16', 'C02'],
+         clauses=['round_trip', 'store_touches_only_own', 'purge_complete', 'purge_touches_only_own', 'purge_of_nothing_is_noop',
+                  'store_then_purge_in_one_patch', 'isolation_other_ids', 'isolation_other_operator', 'either_version_read',
+                  'touch', 'diffbase_round_trip', 'replicaset_marking'],
+         universe='progress storages: Annotations/Smart/Multi x 3 prefixes x v1 {T,F} + Status (19); diff-base storages: Annotations/Multi x 3 prefixes '
+                  'x v1 + Status (13); 4 bodies (bare, user data + foreign status records, shared with another Kopf operator, ReplicaSet owned by a '
+                  'Deployment); 9 ids (plain, field-suffixed, sub-handler, 63/64/75/300 chars, <locals>) + 3 pairs equal after safe-key '
+                  'replacement; records: 12 (quick) / 200 (thorough) seeded combinations of all 9 fields incl. nulls, unicode, 1200-char messages')
+def E5(b):
+    """
+    Property C16, first sentence, for each storage class x configuration (patches applied with the independent RFC 7386 merge):
+      round_trip                fetch(id, merge(body, patch_of(store(id, record)))) == record modulo None-valued fields
+      store_touches_only_own    that patch changes nothing but the record's own locations and the operator's branding marker
+      purge_complete            after merge(.., patch_of(purge(id))) fetch(id) is None and no location of the record is left
+      purge_touches_only_own    ... and nothing else changed;  purge_of_nothing_is_noop: purging an absent record writes nothing
+      store_then_purge_in_one_patch  store + purge in the same patch cancel out: nothing of the record reaches the object
+      isolation_other_ids       store/purge of one id leaves fetch(other id) unchanged, for every other id with a record
+                                [known F-C16-2: ids equal after '/'->'.', '<','>'->'_']
+      isolation_other_operator  ... and leaves the records of an operator with another prefix, user annotations/labels, spec,
+                                foreign status records untouched (both directions)
+      either_version_read       with v1=True both key versions are written, and the record is read back from either one alone
+      touch                     touch(v) writes, a second touch(v) is a no-op, touch(None) removes the dummy again; no record is affected
+      diffbase_round_trip       fetch(merge(body, patch_of(store(essence)))) == essence, for every diff-base storage
+      replicaset_marking        on a ReplicaSet owned by a Deployment the keys carry the -ofDRS mark: annotations propagated from the
+                                Deployment (same operator, same handler id) are neither read as nor overwritten by the ReplicaSet's records
+    Bounded stand-in (labelled B): composition of json.dumps/loads, recursive dicts.ensure/resolve/remove and blake2b key forming.
+    """
+    from contracts.c04_essence import PREFIXES, apply_merge_patch, make_config
+    from kopf._cogs.structs import bodies, patches
+    F2 = 'F-C16-2'
+    records = _records(b.rng, 200 if b.thorough else 12)
+    b.sampled(f'{len(records)} seeded records (seed {b.seed})')
+    storages = [('status', 'status', None, None, make_config('status', 'status', PREFIXES[0], True).progress)]
+    for pk in ('annotations', 'smart', 'multi'):
+        for prefix in PREFIXES:
+            for v1 in (True, False):
+                storages.append((f'{pk}[{prefix},v1={v1}]', pk, prefix, v1, make_config(pk, 'status', prefix, v1).progress))
+
+    def apply(body, fn):
+        patch = patches.Patch()
+        fn(bodies.Body(body), patch)
+        wire = _wire(patch)
+        return apply_merge_patch(body, wire), wire
+
+    for si, (sname, pk, prefix, v1, st) in enumerate(storages):
+        other_prefix = next(p for p in PREFIXES if p != prefix)
+        other = make_config('annotations', 'annotations', other_prefix, True)
+        markers = {f'{p}/kopf-managed' for p in PREFIXES}
+        for bname, body in _e5_bodies(other.progress):
+            view = bodies.Body(body)
+            for ii, hid in enumerate(E5_IDS):
+                keys, in_status = _own_locations(pk, st, hid, body)
+                for ri, record in enumerate(records):
+                    if not b.thorough and (ri + ii + si) % 3 and ri > 2:
+                        continue
+                    ctx = dict(storage=sname, body=bname, id=hid if len(hid) < 80 else hid[:20] + f'...({len(hid)})', record=record)
+                    b.case(key=(sname, bname, hid, ri))
+                    stored, wire = apply(body, lambda bd, p: st.store(key=hid, record=dict(record), body=bd, patch=p))
+                    got = st.fetch(key=hid, body=bodies.Body(stored))
+                    b.check('round_trip', got is not None and _no_nones(got) == _no_nones(record), lambda: dict(ctx, fetched=got, patch=wire))
+                    b.check('store_touches_only_own', _strip_own(stored, keys, in_status, hid, markers) == _strip_own(body, keys, in_status, hid, markers),
+                            lambda: dict(ctx, patch=wire))
+                    if ri > 2:
+                        continue
+                    # -- purge
+                    purged, pwire = apply(stored, lambda bd, p: st.purge(key=hid, body=bd, patch=p))
+                    left = [k for k in keys if k in (purged.get('metadata', {}).get('annotations') or {})]
+                    left_status = in_status and hid in (((purged.get('status') or {}).get('kopf') or {}).get('progress') or {})
+                    b.check('purge_complete', st.fetch(key=hid, body=bodies.Body(purged)) is None and not left and not left_status,
+                            lambda: dict(ctx, left=left, patch=pwire))
+                    b.check('purge_touches_only_own', _strip_own(purged, keys, in_status, hid, set()) == _strip_own(stored, keys, in_status, hid, set()),
+                            lambda: dict(ctx, patch=pwire, before=stored, after=purged))
+                    _, nwire = apply(body, lambda bd, p: st.purge(key=hid, body=bd, patch=p))
+                    b.check('purge_of_nothing_is_noop', nwire == {} or apply_merge_patch(body, nwire) == body, lambda: dict(ctx, patch=nwire))
+                    both, bwire = apply(body, lambda bd, p: (st.store(key=hid, record=dict(record), body=bd, patch=p),
+                                                             st.purge(key=hid, body=bd, patch=p)))
+                    b.check('store_then_purge_in_one_patch', st.fetch(key=hid, body=bodies.Body(both)) is None
+                            and _strip_own(both, set(), False, hid, markers) == _strip_own(body, set(), False, hid, markers),
+                            lambda: dict(ctx, patch=bwire))
+                    # the same over an object that already carries an (older) record of this id: the purge must win
+                    both2, bwire2 = apply(stored, lambda bd, p: (st.store(key=hid, record=dict(records[2]), body=bd, patch=p),
+                                                                 st.purge(key=hid, body=bd, patch=p)))
+                    b.check('store_then_purge_in_one_patch', st.fetch(key=hid, body=bodies.Body(both2)) is None,
+                            lambda: dict(ctx, patch=bwire2, note='older record present on the object'))
+                    # -- isolation against the other ids
+                    for hid2 in E5_IDS[:4] + tuple(x for pair in E5_COLLIDING for x in pair):
+                        if hid2 == hid:
+                            continue
+                        rec2 = dict(records[1], message=f'record of {hid2[:10]}')
+                        base, _ = apply(body, lambda bd, p: st.store(key=hid2, record=rec2, body=bd, patch=p))
+                        before = st.fetch(key=hid2, body=bodies.Body(base))
+                        after_store, _ = apply(base, lambda bd, p: st.store(key=hid, record=dict(record), body=bd, patch=p))
+                        after_purge, _ = apply(after_store, lambda bd, p: st.purge(key=hid, body=bd, patch=p))
+                        ok = (st.fetch(key=hid2, body=bodies.Body(after_store)) == before == st.fetch(key=hid2, body=bodies.Body(after_purge))
+                              and before is not None)
+                        collide = pk != 'status' and safe_ref(hid) == safe_ref(hid2)
+                        b.check('isolation_other_ids', ok, lambda: dict(ctx, other_id=hid2), excuse=F2 if collide else None)
+                    # -- isolation against another operator and user data
+                    mine_gone = _strip_own(purged, keys, in_status, hid, markers)
+                    b.check('isolation_other_operator',
+                            mine_gone == _strip_own(body, keys, in_status, hid, markers)
+                            and other.progress.fetch(key='fn', body=bodies.Body(stored)) == other.progress.fetch(key='fn', body=view),
+                            lambda: dict(ctx, before=body, after=purged))
+                    # -- either key version alone is enough
+                    if keys and len(keys) > 1:
+                        ok = True
+                        for k in keys:
+                            only = copy.deepcopy(stored)
+                            for k2 in keys - {k}:
+                                only['metadata']['annotations'].pop(k2, None)
+                            if in_status:
+                                only = _strip_own(only, set(), True, hid, set())
+                            g = st.fetch(key=hid, body=bodies.Body(only))
+                            ok = ok and g is not None and _no_nones(g) == _no_nones(record)
+                        b.check('either_version_read', ok and v1 is True, lambda: dict(ctx, keys=sorted(keys)))
+                    elif keys:
+                        b.check('either_version_read', all(k in stored['metadata']['annotations'] for k in keys), lambda: dict(ctx, keys=sorted(keys)))
+            # -- colliding ids (documented as F-C16-2): one id's record must not be visible as the other's
+            if pk != 'status':
+                for id1, id2 in E5_COLLIDING:
+                    b.case(key=(sname, bname, id1, id2))
+                    stored, _ = apply(body, lambda bd, p: st.store(key=id1, record=dict(records[1]), body=bd, patch=p))
+                    leaked = st.fetch(key=id2, body=bodies.Body(stored))
+                    b.check('isolation_other_ids', leaked is None, lambda: dict(storage=sname, stored_for=id1, fetched_for=id2, got=leaked), excuse=F2)
+            # -- touch
+            b.case(key=(sname, bname, 'touch'))
+            with_rec, _ = apply(body, lambda bd, p: st.store(key='fn', record=dict(records[1]), body=bd, patch=p))
+            touched, twire = apply(with_rec, lambda bd, p: st.touch(body=bd, patch=p, value='2020-01-01T00:00:00'))
+            _, again = apply(touched, lambda bd, p: st.touch(body=bd, patch=p, value='2020-01-01T00:00:00'))
+            untouched, uwire = apply(touched, lambda bd, p: st.touch(body=bd, patch=p, value=None))
+            _, again_none = apply(untouched, lambda bd, p: st.touch(body=bd, patch=p, value=None))
+            same_rec = st.fetch(key='fn', body=bodies.Body(touched)) == st.fetch(key='fn', body=bodies.Body(with_rec)) == st.fetch(key='fn', body=bodies.Body(untouched))
+            restored = bname in ('user-data', 'shared-with-other-operator') and pk in ('status', 'multi') \
+                or _strip_own(untouched, set(), False, '', markers) == _strip_own(with_rec, set(), False, '', markers)
+            b.check('touch', twire != {} and again == {} and again_none == {} and same_rec and restored,
+                    lambda: dict(storage=sname, body=bname, touch_patch=twire, second=again, untouch_patch=uwire))
+        # -- ReplicaSet owned by a Deployment (annotation storages only)
+        if pk != 'status':
+            rs = dict(_e5_bodies(other.progress))['replicaset-of-deployment']
+            deployment = {'apiVersion': 'apps/v1', 'kind': 'Deployment', 'metadata': {'name': 'd', 'namespace': 'ns'}, 'spec': {}}
+            for hid in E5_IDS[:6]:
+                b.case(key=(sname, 'rs', hid))
+                dep_stored, _ = apply(deployment, lambda bd, p: st.store(key=hid, record=dict(records[1]), body=bd, patch=p))
+                propagated = apply_merge_patch(rs, {'metadata': {'annotations': dep_stored['metadata']['annotations']}})   # what Kubernetes copies down
+                not_read = st.fetch(key=hid, body=bodies.Body(propagated)) is None
+                rs_stored, _ = apply(propagated, lambda bd, p: st.store(key=hid, record=dict(records[2]), body=bd, patch=p))
+                kept = all(rs_stored['metadata']['annotations'].get(k) == v for k, v in dep_stored['metadata']['annotations'].items())
+                own = st.fetch(key=hid, body=bodies.Body(rs_stored))
+                b.check('replicaset_marking', not_read and kept and own is not None and _no_nones(own) == _no_nones(records[2]),
+                        lambda: dict(storage=sname, id=hid, propagated_read_as_own=not not_read, deployment_annotations_kept=kept, own=own))
+    # ---- diff-base storages
+    essences = [{'spec': {'x': 1}}, {}, {'spec': {'s': 'ü∂ "q"\n', 'n': None, 'l': [1, {'a': None}], 'f': 1.5, 't': True}, 'metadata': {'labels': {'a': 'b'}}},
+                {'spec': {'big': 'x' * 5000}}]
+    dstorages = [('status', make_config('status', 'status', PREFIXES[0], True).diffbase)]
+    for dk in ('annotations', 'multi'):
+        for prefix in PREFIXES:
+            for v1 in (True, False):
+                dstorages.append((f'{dk}[{prefix},v1={v1}]', make_config('status', dk, prefix, v1).diffbase))
+    for dname, ds in dstorages:
+        other = make_config('annotations', 'annotations', PREFIXES[1] if PREFIXES[1] not in dname else PREFIXES[0], True)
+        for bname, body in _e5_bodies(other.progress):
+            for ei, ess in enumerate(essences):
+                b.case(key=(dname, bname, ei))
+                stored, wire = apply(body, lambda bd, p: ds.store(body=bd, patch=p, essence=copy.deepcopy(ess)))
+                got = ds.fetch(body=bodies.Body(stored))
+                b.check('diffbase_round_trip', got == ess and ds.fetch(body=bodies.Body(body)) is None,
+                        lambda: dict(storage=dname, body=bname, essence=ess, fetched=got))
